@@ -61,55 +61,56 @@ Definition fold_mon {S} (step : S -> ev -> option S) (fin : S -> bool) (init : S
 
 (* the uid an event starts executing, if any *)
 Definition started (e : ev) : option N :=
-  match e with ERun u _ | EMeth _ u _ | EPrep _ u _ => Some u | _ => None end.
+  match e with ERun u _ _ | EMeth _ u _ | EPrep _ u _ => Some u | _ => None end.
 
 (* ------------------------------------------------------------------ *)
-(** * C15: virtual time is monotone and uniform within a run *)
+(** * C15: virtual time is monotone and uniform within a run
+
+    [Core::now()] equals the greatest instant passed so far to [Stakker::new] or [run]; every item executed
+    by one run observes that value, except the single idle item (which runs first) that still observes the
+    previous one; timers are evaluated only when time advances; [start_instant()] never changes. *)
 
 Record s15 := mk15 {
   t_cur : Z;                 (* what Core::now() must answer *)
   t_start : Z;
-  t_next : option Z;         (* a run has begun and time is not yet updated: the value it will take *)
-  t_idleok : bool;           (* the idle item may still come *)
+  t_next : option Z;         (* a run has begun and its time update has not been observed yet: the new value *)
+  t_idleok : bool;           (* the idle item of this run may still come *)
   t_inidle : option N;       (* uid of the running idle item *)
-  t_adv : bool;              (* this run advances time *)
-  t_idles : list N;          (* uids submitted to the idle queue *)
-  t_timers : list N }.       (* uids handed to timers *)
+  t_adv : bool }.            (* this run advances time *)
 
-Definition i15 : s15 := mk15 0 0 None false None false [] [].
+Definition i15 : s15 := mk15 0 0 None false None false.
 
 Definition upd15 (s : s15) : s15 :=
   match t_next s with
-  | Some t => mk15 t (t_start s) None false (t_inidle s) (t_adv s) (t_idles s) (t_timers s)
+  | Some t => mk15 t (t_start s) None false None (t_adv s)
   | None => s
   end.
 
 Definition step15 (s : s15) (e : ev) : option s15 :=
   match e with
-  | ENew t => Some (mk15 t t None false None false (t_idles s) (t_timers s))
-  | ESub QIdle u => Some (mk15 (t_cur s) (t_start s) (t_next s) (t_idleok s) (t_inidle s) (t_adv s) (u :: t_idles s) (t_timers s))
-  | ESub QTimer u => Some (mk15 (t_cur s) (t_start s) (t_next s) (t_idleok s) (t_inidle s) (t_adv s) (t_idles s) (u :: t_timers s))
-  | ERunBegin t idle =>
-      Some (mk15 (t_cur s) (t_start s) (Some (Z.max (t_cur s) t)) idle None (t >? t_cur s) (t_idles s) (t_timers s))
+  | ENew t => Some (mk15 t t None false None false)
+  | ERunBegin t idle => Some (mk15 (t_cur s) (t_start s) (Some (Z.max (t_cur s) t)) idle None (t >? t_cur s))
   | ERunRet _ => Some (upd15 s)
-  | ERun u n | EMeth _ u n | EPrep _ u n =>
-      let isrun := match e with ERun _ _ => true | _ => false end in
-      if t_idleok s && nmem u (t_idles s) && isrun then
-        (* the single idle item: still the previous value *)
-        guard (n =? t_cur s)
-              (mk15 (t_cur s) (t_start s) (t_next s) false (Some u) (t_adv s) (t_idles s) (t_timers s))
-      else
-        let s1 := upd15 s in
-        (* a timer closure runs only in a run that advances time *)
-        guard ((n =? t_cur s1) && (negb (isrun && nmem u (t_timers s)) || t_adv s1)) s1
+  | ERun u n QIdle =>
+      (* the single idle item: first thing of the run, still the previous value *)
+      guard (t_idleok s && (n =? t_cur s))
+            (mk15 (t_cur s) (t_start s) (t_next s) false (Some u) (t_adv s))
+  | ERun u n q =>
+      let s1 := upd15 s in
+      (* a timer closure runs only in a run that advances time *)
+      guard ((n =? t_cur s1) && (match q with QTimer => t_adv s1 | _ => true end)) s1
+  | EMeth _ u n | EPrep _ u n => let s1 := upd15 s in guard (n =? t_cur s1) s1
   | EEnd u =>
       match t_inidle s with
-      | Some v => if N.eqb u v then Some (upd15 (mk15 (t_cur s) (t_start s) (t_next s) false None (t_adv s) (t_idles s) (t_timers s)))
-                  else Some s
+      | Some v => if N.eqb u v then Some (mk15 (t_cur s) (t_start s) (t_next s) false None (t_adv s)) else Some s
       | None => Some s
       end
   | ENum tag n =>
-      if N.eqb tag TAG_NOW then guard (n =? t_cur s) s
+      if N.eqb tag TAG_NOW then
+        match t_inidle s, t_next s with
+        | None, Some tn => guard ((n =? t_cur s) || (n =? tn)) s   (* not reachable: nothing observes now() here *)
+        | _, _ => guard (n =? t_cur s) s
+        end
       else if N.eqb tag TAG_START then guard (n =? t_start s) s
       else Some s
   | _ => Some s
@@ -128,108 +129,138 @@ Definition prep_upd (prep : list N) (e : ev) : list N :=
   end.
 
 (* ------------------------------------------------------------------ *)
-(** * C06: quiescence; lazy after main; idle on request *)
+(** * C06: quiescence; lazy after main; idle on request
+
+    Two conjuncts.  [C06_plain_ok] speaks about plain closures (FIFO lists with head discipline; this is the
+    part proved of the model in R/C06Proofs.v).  [C06_calls_ok] adds the actor calls travelling through the
+    main queue: a call addressed to an actor that is still in Prep may legitimately be held, so it only counts
+    as pending main-queue work while its target is not in Prep. *)
 
 Record s06 := mk06 {
-  q_main : list N;           (* submitted to the main queue, not yet started/dropped, in order *)
+  q_main : list N;           (* plain closures in the main queue, in order *)
   q_lazy : list N;
   q_idle : list N;
-  q_tgt : list (N * N);      (* call closures: uid -> target actor *)
-  q_prep : list N;           (* actors in Prep *)
   q_run : option bool;       (* inside run(_, idle) *)
   q_first : bool;            (* nothing has started yet in this run *)
-  q_idleran : bool;
-  q_lazyon : bool;           (* a lazy batch is in progress *)
-  q_since : list N }.        (* main submissions since the batch began *)
+  q_lazyon : bool }.         (* a lazy batch is in progress: main work submitted by it may be pending *)
 
-Definition i06 : s06 := mk06 [] [] [] [] [] None false false false [].
+Definition i06 : s06 := mk06 [] [] [] None false false.
 
-(* main-queue work that is certainly pending: calls addressed to an actor still in Prep may be held *)
-Definition pending_main (s : s06) : list N :=
-  filter (fun u => match nget (q_tgt s) u with Some a => negb (nmem a (q_prep s)) | None => true end) (q_main s).
+Definition pop_if (u : N) (l : list N) : option (list N) :=
+  match l with v :: r => if N.eqb u v then Some r else None | [] => None end.
 
 Definition step06 (s : s06) (e : ev) : option s06 :=
-  let s := mk06 (q_main s) (q_lazy s) (q_idle s) (q_tgt s) (prep_upd (q_prep s) e) (q_run s) (q_first s)
-                (q_idleran s) (q_lazyon s) (q_since s) in
   match e with
-  | ETarget u a _ => Some (mk06 (q_main s) (q_lazy s) (q_idle s) (nset (q_tgt s) u a) (q_prep s) (q_run s) (q_first s) (q_idleran s) (q_lazyon s) (q_since s))
-  | ESub QMain u => Some (mk06 (q_main s ++ [u]) (q_lazy s) (q_idle s) (q_tgt s) (q_prep s) (q_run s) (q_first s) (q_idleran s) (q_lazyon s)
-                               (if q_lazyon s then u :: q_since s else q_since s))
-  | ESub QLazy u => Some (mk06 (q_main s) (q_lazy s ++ [u]) (q_idle s) (q_tgt s) (q_prep s) (q_run s) (q_first s) (q_idleran s) (q_lazyon s) (q_since s))
-  | ESub QIdle u => Some (mk06 (q_main s) (q_lazy s) (q_idle s ++ [u]) (q_tgt s) (q_prep s) (q_run s) (q_first s) (q_idleran s) (q_lazyon s) (q_since s))
-  | ERunBegin _ idle => Some (mk06 (q_main s) (q_lazy s) (q_idle s) (q_tgt s) (q_prep s) (Some idle) true false false [])
+  | ESub QMain u false => Some (mk06 (q_main s ++ [u]) (q_lazy s) (q_idle s) (q_run s) (q_first s) (q_lazyon s))
+  | ESub QLazy u _ => Some (mk06 (q_main s) (q_lazy s ++ [u]) (q_idle s) (q_run s) (q_first s) (q_lazyon s))
+  | ESub QIdle u _ => Some (mk06 (q_main s) (q_lazy s) (q_idle s ++ [u]) (q_run s) (q_first s) (q_lazyon s))
+  | ERunBegin _ idle => Some (mk06 (q_main s) (q_lazy s) (q_idle s) (Some idle) true false)
   | ERunRet b =>
-      guard (nil_b (pending_main s) && nil_b (q_lazy s) && Bool.eqb b (negb (nil_b (q_idle s))))
-            (mk06 (q_main s) (q_lazy s) (q_idle s) (q_tgt s) (q_prep s) None false false false [])
-  | ERun u _ | EMeth _ u _ | EPrep _ u _ =>
-      if nmem u (q_idle s) then
-        guard (match q_run s with Some true => true | _ => false end && q_first s && negb (q_idleran s) && hd_is u (q_idle s))
-              (mk06 (q_main s) (q_lazy s) (nremove u (q_idle s)) (q_tgt s) (q_prep s) (q_run s) false true (q_lazyon s) (q_since s))
-      else if nmem u (q_lazy s) then
-        let ok := hd_is u (q_lazy s) &&
-                  (if q_lazyon s then subset (pending_main s) (q_since s) else nil_b (pending_main s)) in
-        guard ok (mk06 (q_main s) (nremove u (q_lazy s)) (q_idle s) (q_tgt s) (q_prep s) (q_run s) false (q_idleran s) true
-                       (if q_lazyon s then q_since s else []))
-      else
-        Some (mk06 (nremove u (q_main s)) (q_lazy s) (q_idle s) (q_tgt s) (q_prep s) (q_run s) false (q_idleran s) false (q_since s))
-  | EDrop u =>
-      Some (mk06 (nremove u (q_main s)) (nremove u (q_lazy s)) (nremove u (q_idle s)) (q_tgt s) (q_prep s) (q_run s) (q_first s) (q_idleran s) (q_lazyon s) (q_since s))
+      guard (nil_b (q_main s) && nil_b (q_lazy s) && Bool.eqb b (negb (nil_b (q_idle s))))
+            (mk06 (q_main s) (q_lazy s) (q_idle s) None false false)
+  | ERun u _ QIdle =>
+      (* only on request, at most one, before anything else, in submission order *)
+      match pop_if u (q_idle s) with
+      | Some r => guard (match q_run s with Some true => true | _ => false end && q_first s)
+                        (mk06 (q_main s) (q_lazy s) r (q_run s) false (q_lazyon s))
+      | None => None
+      end
+  | ERun u _ QLazy =>
+      (* in submission order; never while main-queue work is pending, unless a lazy item of this batch made it *)
+      match pop_if u (q_lazy s) with
+      | Some r => guard (q_lazyon s || nil_b (q_main s))
+                        (mk06 (q_main s) r (q_idle s) (q_run s) false true)
+      | None => None
+      end
+  | ERun u _ QMain =>
+      match pop_if u (q_main s) with
+      | Some r => Some (mk06 r (q_lazy s) (q_idle s) (q_run s) false false)
+      | None => None
+      end
+  | ERun _ _ QTimer | EMeth _ _ _ | EPrep _ _ _ =>
+      Some (mk06 (q_main s) (q_lazy s) (q_idle s) (q_run s) false false)
+  | EDrop u (Some QMain) false =>
+      match pop_if u (q_main s) with Some r => Some (mk06 r (q_lazy s) (q_idle s) (q_run s) (q_first s) (q_lazyon s)) | None => None end
+  | EDrop u (Some QLazy) _ =>
+      match pop_if u (q_lazy s) with Some r => Some (mk06 (q_main s) r (q_idle s) (q_run s) (q_first s) (q_lazyon s)) | None => None end
+  | EDrop u (Some QIdle) _ =>
+      match pop_if u (q_idle s) with Some r => Some (mk06 (q_main s) (q_lazy s) r (q_run s) (q_first s) (q_lazyon s)) | None => None end
   | _ => Some s
   end.
 
-Definition C06_ok (t : list ev) : bool := fold_mon step06 (fun _ => true) i06 t.
+Definition C06_plain_ok (t : list ev) : bool := fold_mon step06 (fun _ => true) i06 t.
+
+(* the calls *)
+Record s06c := mk06c {
+  k_calls : list N;          (* calls in the main queue or held, not yet started/dropped *)
+  k_tgt : list (N * N);
+  k_prep : list N;
+  k_lazyon : bool;
+  k_since : list N }.
+
+Definition i06c : s06c := mk06c [] [] [] false [].
+
+Definition pending_calls (s : s06c) : list N :=
+  filter (fun u => match nget (k_tgt s) u with Some a => negb (nmem a (k_prep s)) | None => true end) (k_calls s).
+
+Definition step06c (s : s06c) (e : ev) : option s06c :=
+  let s := mk06c (k_calls s) (k_tgt s) (prep_upd (k_prep s) e) (k_lazyon s) (k_since s) in
+  match e with
+  | ETarget u a _ => Some (mk06c (k_calls s) (nset (k_tgt s) u a) (k_prep s) (k_lazyon s) (k_since s))
+  | ESub QMain u true => Some (mk06c (k_calls s ++ [u]) (k_tgt s) (k_prep s) (k_lazyon s)
+                                     (if k_lazyon s then u :: k_since s else k_since s))
+  | ERunBegin _ _ => Some (mk06c (k_calls s) (k_tgt s) (k_prep s) false [])
+  | ERunRet _ => guard (nil_b (pending_calls s)) (mk06c (k_calls s) (k_tgt s) (k_prep s) false [])
+  | ERun _ _ QLazy =>
+      guard (if k_lazyon s then subset (pending_calls s) (k_since s) else nil_b (pending_calls s))
+            (mk06c (k_calls s) (k_tgt s) (k_prep s) true (if k_lazyon s then k_since s else []))
+  | ERun _ _ QIdle => Some s
+  | ERun _ _ _ => Some (mk06c (k_calls s) (k_tgt s) (k_prep s) false (k_since s))
+  | EMeth _ u _ | EPrep _ u _ => Some (mk06c (nremove u (k_calls s)) (k_tgt s) (k_prep s) false (k_since s))
+  | EDrop u _ true => Some (mk06c (nremove u (k_calls s)) (k_tgt s) (k_prep s) (k_lazyon s) (k_since s))
+  | _ => Some s
+  end.
+
+Definition C06_calls_ok (t : list ev) : bool := fold_mon step06c (fun _ => true) i06c t.
+
+Definition C06_ok (t : list ev) : bool := C06_plain_ok t && C06_calls_ok t.
 
 (* ------------------------------------------------------------------ *)
-(** * C01: deferred closures run exactly once, in submission order (plain closures of the main queue) *)
+(** * C01: deferred closures run exactly once, in submission order
+
+    The plain closures of the main queue form one FIFO list: a submission appends, a start or an un-run drop
+    must concern the head and removes it (conservation: one outcome per submission, never two; FIFO: the
+    consumption sequence IS the submission sequence), the list is empty whenever [run] returns (by next run),
+    nothing starts during [Stakker::drop], and the drain loop of [Stakker::drop] leaves nothing queued: when
+    the first lazy/idle/timer closure is dropped (or, failing that, when the drop returns) the list is empty.
+    What is submitted after that point (by Drop handlers of lazy/idle/timer closures) stays queued (limbo). *)
 
 Record s01 := mk01 {
-  m_tgt : list N;            (* uids that are calls (handled by C02) *)
-  m_q : list (N * qk);       (* uid -> queue it was handed to *)
-  m_pend : list N;           (* plain main-queue closures submitted and neither started nor dropped, in order *)
-  m_done : list N;
+  m_pend : list N;           (* plain main-queue closures, submitted, neither started nor dropped, in order *)
   m_tear : bool;             (* between dropbegin and dropend *)
-  m_curq : option qk;        (* queue of the item whose drop is in progress (teardown only) *)
-  m_must : list N }.         (* must be gone when Stakker::drop returns *)
+  m_fields : bool }.         (* the drain loop is over: lazy/idle/timer closures are being dropped *)
 
-Definition i01 : s01 := mk01 [] [] [] [] false None [].
-
-Definition consume01 (s : s01) (u : N) (isdrop : bool) : option s01 :=
-  let curq := if isdrop && m_tear s then (match nget (m_q s) u with Some q => Some q | None => m_curq s end) else m_curq s in
-  if nmem u (m_pend s) then
-    guard (hd_is u (m_pend s) && negb (nmem u (m_done s)))
-          (mk01 (m_tgt s) (m_q s) (nremove u (m_pend s)) (u :: m_done s) (m_tear s) curq (m_must s))
-  else
-    guard (negb (nmem u (m_done s)))
-          (mk01 (m_tgt s) (m_q s) (m_pend s) (m_done s) (m_tear s) curq (m_must s)).
+Definition i01 : s01 := mk01 [] false false.
 
 Definition step01 (s : s01) (e : ev) : option s01 :=
   match e with
-  | ETarget u _ _ => Some (mk01 (u :: m_tgt s) (m_q s) (m_pend s) (m_done s) (m_tear s) (m_curq s) (m_must s))
-  | ESub q u =>
-      let s1 := mk01 (m_tgt s) (nset (m_q s) u q) (m_pend s) (m_done s) (m_tear s) (m_curq s) (m_must s) in
-      match q with
-      | QMain =>
-          if nmem u (m_tgt s) then Some s1
-          else guard (negb (nmem u (m_pend s)) && negb (nmem u (m_done s)))
-                 (mk01 (m_tgt s1) (m_q s1) (m_pend s ++ [u]) (m_done s) (m_tear s) (m_curq s)
-                       (if m_tear s && match m_curq s with Some QMain => true | _ => false end
-                        then u :: m_must s else m_must s))
-      | _ => Some s1
-      end
-  | ERun u _ => if m_tear s then None else consume01 s u false
-  | EMeth _ _ _ | EPrep _ _ _ => if m_tear s then None else Some s
-  | EDrop u => consume01 s u true
+  | ESub QMain u false => Some (mk01 (m_pend s ++ [u]) (m_tear s) (m_fields s))
+  | ERun u _ QMain =>
+      if m_tear s then None else
+      match pop_if u (m_pend s) with Some r => Some (mk01 r (m_tear s) (m_fields s)) | None => None end
+  | ERun _ _ _ | EMeth _ _ _ | EPrep _ _ _ => if m_tear s then None else Some s
+  | EDrop u (Some QMain) false =>
+      match pop_if u (m_pend s) with Some r => Some (mk01 r (m_tear s) (m_fields s)) | None => None end
+  | EDrop _ (Some _) false =>
+      (* a lazy / idle / timer closure dropped by Stakker::drop: the drain loop has finished *)
+      if m_tear s && negb (m_fields s) then guard (nil_b (m_pend s)) (mk01 (m_pend s) true true) else Some s
   | ERunRet _ => guard (nil_b (m_pend s)) s
-  | EDropBegin => Some (mk01 (m_tgt s) (m_q s) (m_pend s) (m_done s) true None (m_pend s))
-  | EDropEnd => guard (disjoint (m_must s) (m_pend s))
-                      (mk01 (m_tgt s) (m_q s) (m_pend s) (m_done s) false None [])
-  | ELeak k u => if N.eqb k LK_CLO
-                 then Some (mk01 (m_tgt s) (m_q s) (nremove u (m_pend s)) (m_done s) (m_tear s) (m_curq s) (m_must s))
-                 else Some s
+  | EDropBegin => Some (mk01 (m_pend s) true false)
+  | EDropEnd => guard (m_fields s || nil_b (m_pend s)) (mk01 (m_pend s) false false)
   | _ => Some s
   end.
 
-Definition C01_ok (t : list ev) : bool := fold_mon step01 (fun s => nil_b (m_pend s)) i01 t.
+Definition C01_ok (t : list ev) : bool := fold_mon step01 (fun _ => true) i01 t.
 
 (* ------------------------------------------------------------------ *)
 (** * C02: calls to one actor run in the order made, gated by its lifecycle *)
@@ -248,7 +279,7 @@ Definition phase_of (l : list (N * N)) (a : N) : N := match nget l a with Some p
 Definition step02 (s : s02) (e : ev) : option s02 :=
   match e with
   | ETarget u a p => Some (mk02 (nset (c_tgt s) u (a, p)) (c_pend s) (c_phase s) (c_done s))
-  | ESub QMain u =>
+  | ESub QMain u _ =>
       match nget (c_tgt s) u with
       | Some (a, false) => Some (mk02 (c_tgt s) (nset (c_pend s) a (pend_of s a ++ [u])) (c_phase s) (c_done s))
       | _ => Some s
@@ -264,7 +295,7 @@ Definition step02 (s : s02) (e : ev) : option s02 :=
       guard (N.eqb (phase_of (c_phase s) a) 1 && negb (nmem u (c_done s))
              && match nget (c_tgt s) u with Some (a', true) => N.eqb a a' | _ => false end)
             (mk02 (c_tgt s) (c_pend s) (c_phase s) (u :: c_done s))
-  | EDrop u =>
+  | EDrop u _ _ =>
       match nget (c_tgt s) u with
       | Some (a, _) => guard (negb (nmem u (c_done s)))
                              (mk02 (c_tgt s) (nset (c_pend s) a (nremove u (pend_of s a))) (c_phase s) (u :: c_done s))
@@ -307,7 +338,7 @@ Definition step03 (s : s03) (e : ev) : option s03 :=
   | EMeth a u _ | EPrep a u _ =>
       guard (negb (N.eqb (phase_of (z_phase s) a) 3))
             (mk03 (z_phase s) (z_notified s) (z_valdrop s) (z_reqs s) (Some (a, u, None)) (z_expect s) (z_live s))
-  | ERun _ _ => Some (mk03 (z_phase s) (z_notified s) (z_valdrop s) (z_reqs s) None (z_expect s) (z_live s))
+  | ERun _ _ _ => Some (mk03 (z_phase s) (z_notified s) (z_valdrop s) (z_reqs s) None (z_expect s) (z_live s))
   | EEnd u =>
       match z_body s with
       | Some (a, v, fr) =>
@@ -379,12 +410,12 @@ Definition step04 (s : s04) (e : ev) : option s04 :=
   | ESlabAdd p a => Some (mk04 (o_cnt s) (o_alive s) (o_must s) (o_notified s) (o_atret s) (o_tgt s) (o_pend s) (o_snap s)
                                (nset (o_kids s) p (a :: lst_of (o_kids s) p)) (a :: o_slabkid s))
   | ETarget u a false => Some (mk04 (o_cnt s) (o_alive s) (o_must s) (o_notified s) (o_atret s) (nset (o_tgt s) u a) (o_pend s) (o_snap s) (o_kids s) (o_slabkid s))
-  | ESub QMain u =>
+  | ESub QMain u _ =>
       match nget (o_tgt s) u with
       | Some a => Some (mk04 (o_cnt s) (o_alive s) (o_must s) (o_notified s) (o_atret s) (o_tgt s) (nset (o_pend s) a (lst_of (o_pend s) a ++ [u])) (o_snap s) (o_kids s) (o_slabkid s))
       | None => Some s
       end
-  | EMeth _ u _ | EDrop u =>
+  | EMeth _ u _ | EDrop u _ _ =>
       match nget (o_tgt s) u with
       | Some a => Some (mk04 (o_cnt s) (o_alive s) (o_must s) (o_notified s) (o_atret s) (o_tgt s) (nset (o_pend s) a (nremove u (lst_of (o_pend s) a))) (o_snap s) (o_kids s) (o_slabkid s))
       | None => Some s
@@ -451,7 +482,7 @@ Definition step05 (s : s05) (e : ev) : option s05 :=
       guard (nmem r (r_new s) && match nget (r_inv s) r with None => true | _ => false end
              && opt_n_eqb m (nget (r_sent s) r))
             (mk05 (r_new s) (r_sent s) (nset (r_inv s) r m) (r_to s) (r_callsub s) (r_prev s))
-  | ESub QMain u =>
+  | ESub QMain u _ =>
       match ret_of_call (r_to s) u with
       | Some (r, some) =>
           guard (negb (nmem u (r_callsub s)) &&
@@ -495,7 +526,7 @@ Definition created16 (e : ev) : option (N * N) :=
 
 Definition consumed16 (e : ev) : option (N * N) :=
   match e with
-  | ERun u _ | EMeth _ u _ | EPrep _ u _ | EDrop u => Some (LK_CLO, u)
+  | ERun u _ _ | EMeth _ u _ | EPrep _ u _ | EDrop u _ _ => Some (LK_CLO, u)
   | EValDrop a => Some (LK_VAL, a)
   | ERet r _ => Some (LK_RET, r)
   | ENotify a _ => Some (LK_NOTIFY, a)
@@ -582,7 +613,7 @@ Definition step20 (s : s20) (e : ev) : option s20 :=
   | ESetLogger lvls => Some (mk20 true (filter20 lvls) (l_ids s) (l_last s) (l_body s) (Some e) false)
   | ESetFilter lvls => Some (mk20 (l_has s) (filter20 lvls) (l_ids s) (l_last s) (l_body s) (Some e) false)
   | EMeth a _ _ | EPrep a _ _ => Some (mk20 (l_has s) (l_filt s) (l_ids s) (l_last s) (Some a) (Some e) false)
-  | ERun _ _ => Some (mk20 (l_has s) (l_filt s) (l_ids s) (l_last s) None (Some e) false)
+  | ERun _ _ _ => Some (mk20 (l_has s) (l_filt s) (l_ids s) (l_last s) None (Some e) false)
   | EEnd _ => Some (mk20 (l_has s) (l_filt s) (l_ids s) (l_last s) None (Some e) false)
   | ELog id lvl parent mk =>
       if user_rec then guard (deliver lvl) s1
